@@ -392,4 +392,39 @@ def rule_g(ctx: Ctx) -> None:
     load_then_lookup(ctx, 'C10.g')
 
 
-RULES = [rule_a, rule_b, rule_c, rule_d, rule_e, rule_f, rule_g]
+def rule_h(ctx: Ctx) -> None:
+    """A failed or aborted validation leaves no residue: loading a schema on demand (xsi:schemaLocation hints, wildcards) runs inside
+    XsdGlobals.protect_status(), whose handler puts the maps back.  The build of a hinted schema can fail with any error of the library - a
+    parse error, but also a model error (UPA), a value or namespace error - so the restoring handler catches the root of the hierarchy."""
+    rule = 'C10.h'
+    idx = ctx.idx
+    ps = idx.func(f'{V}.xsd_globals.XsdGlobals.protect_status')
+    ctx.analysed(ps.qualname)
+    root = idx.cls('xmlschema.exceptions.XMLSchemaException')
+    tries = [t for t in ast.walk(ps.node) if isinstance(t, ast.Try) and any(isinstance(x, (ast.Yield, ast.YieldFrom)) for b in t.body for x in ast.walk(b))]
+    ctx.floor(rule, 'try blocks around the yield of protect_status', len(tries), 1)
+    for t in tries:
+        restoring = [h for h in t.handlers if any(isinstance(c.func, ast.Attribute) and c.func.attr in ('update', 'clear') for c in calls(h))]
+        ctx.floor(rule, 'restoring handlers of protect_status', len(restoring), 1)
+        caught = []
+        for h in restoring:
+            types = h.type.elts if isinstance(h.type, ast.Tuple) else [h.type] if h.type is not None else []
+            for ty in types:
+                caught.append(text(ty))
+        ok = not caught and bool(restoring)       # bare except
+        for nm_ in caught:
+            if nm_ in ('Exception', 'BaseException'):
+                ok = True
+                continue
+            q = idx.resolve_name(ps.module, nm_)
+            k = idx.classes.get(q) if q else None
+            if k is not None and root.is_subclass_of(k):
+                ok = True
+        ctx.ob(rule, 'XsdGlobals.protect_status: the restoring handler catches every exception of the library hierarchy', ps.loc(restoring[0]) if restoring else ps.loc(), ok,
+               f'catches {caught}' if ok else f'catches only {caught}: a hinted schema whose build fails with another library error (XMLSchemaModelError for a UPA violation, '
+               'XMLSchemaValueError, XMLSchemaNamespaceError) escapes without the rollback - its namespace and globals stay registered in maps that are left unbuilt, '
+               'and later documents are judged by them', key='protect_status|handler-type')
+    ctx.explain('C10.h: the `except` clause of protect_status that restores the maps names XMLSchemaException, one of its ancestors, or nothing (class table of the index).')
+
+
+RULES = [rule_a, rule_b, rule_c, rule_d, rule_e, rule_f, rule_g, rule_h]
